@@ -1,12 +1,16 @@
 import CprocVerif.Model.Scan
 import CprocVerif.Model.PP
 import CprocVerif.Spec.MacroRef
+import CprocVerif.Lemmas.PPFunSim6
 
 /-! Line-protocol driver for property C12 (model of the macro machinery of `pp.c`, and the
 6.10.3 reference).
 
 One output line per input line:
-* `pp <hex>`   → the model's `next()` stream for the source text: `<tok> … [!<error class>] [@<events>]`
+* `pp <hex>`   → the model's `next()` stream for the source text: `<tok> … [!<error class>] [@<events>] [%<class>]`
+                 `<class>`: the unit is in the class of `CprocVerif.C12.function_like_correct_init` — its
+                 leading directive lines, run through the model, leave a table `ms0` with `tblOKb ms0`, and
+                 the rest of the text satisfies `textOKb ms0` — `F` when `ms0` has a function-like macro, else `O`
                  `<tok>` = `<kind number>:<lit hex | ->:<space 0|1>`
 * `ppnl <hex>` → the same with `PPNEWLINE` set (what `-E` does)
 * `ref <hex>`  → the reference (`Spec/MacroRef.lean`): `<tok> … [!<error class>] [@<flags>]`, keywords converted
@@ -73,13 +77,44 @@ def runAcc : Nat → PP.St → Array String → Array String × Option PP.Err ×
       if st1.tok.kind = .TEOF then (acc.push (showTok st1.tok), none, st1)
       else runAcc n st1 (acc.push (showTok st1.tok))
 
+/-- one line, its new-line included -/
+def takeLine : List PP.Tok → List PP.Tok × List PP.Tok
+  | [] => ([], [])
+  | t :: r => if t.kind = .TNEWLINE then ([t], r) else ((takeLine r).1.cons t, (takeLine r).2)
+
+/-- the directive lines (and empty lines) at the start, and the rest -/
+def splitDirs : Nat → List PP.Tok → List PP.Tok × List PP.Tok
+  | 0, l => ([], l)
+  | _, [] => ([], [])
+  | n + 1, t :: r =>
+    if t.kind = .THASH then
+      let ln := takeLine (t :: r)
+      let more := splitDirs n ln.2
+      (ln.1 ++ more.1, more.2)
+    else if t.kind = .TNEWLINE then
+      let more := splitDirs n r
+      (t :: more.1, more.2)
+    else ([], t :: r)
+
+/-- membership in the class of `function_like_correct_init`, by the tests the theorem is stated with -/
+def classOf (raw : List PP.Tok) : String :=
+  let sp := splitDirs raw.length raw
+  match PP.exec FUEL .next (PP.St.init sp.1 false) with
+  | .ok st1 =>
+    if st1.tok.kind = .TEOF && st1.ctx.isEmpty && !st1.prag && PP.tblOKb st1.macros && st1.macros.all (fun m => !m.hide) &&
+       PP.textOKb st1.macros (sp.2.length + 1) sp.2 then
+      (if st1.macros.any (·.func) then " %F" else " %O")
+    else ""
+  | .error _ => ""
+
 def showModel (bs : List UInt8) (ppnl : Bool) : String :=
-  let r := runAcc MAXOUT (PP.St.init (rawOf bs) ppnl) #[]
+  let raw := rawOf bs
+  let r := runAcc MAXOUT (PP.St.init raw ppnl) #[]
   let toks := " ".intercalate r.1.toList
   let e := match r.2.1 with | none => "" | some e => " !" ++ errName e
   let evs := r.2.2.events.eraseDups
   let ev := if evs.isEmpty then "" else " @" ++ ",".intercalate (evs.map evName)
-  toks ++ e ++ ev
+  toks ++ e ++ ev ++ (if ppnl then "" else classOf raw)
 
 def refErr : Spec.MacroRef.RErr → String
   | .fuel => "fuel" | .lex => "lex" | .badDefine => "badDefine" | .dupParam => "dupParam" | .vaArgs => "vaArgs"
